@@ -228,12 +228,48 @@ def closeBlock (t : Table) (b : Term Blk) : Term Blk :=
       defs := defs,
       jmps := b.term.jmps.map fun j => { j with term := mapJmpExprs (substAllN t' t'.length) j.term } } }
 
-/-- close a propagated program `q` (model or implementation output) with the tables the model computes
-for the input program `p` -/
+/-- close a propagated program `q` (model or implementation output) with the tables `m` -/
+def closeProgramWith (m : TableMap) (q : Program) : Program :=
+  mapProgramSubs (mapSubBlocks fun b => closeBlock ((m.get b.tid).getD []) b) q
+
+/-- ... with the tables the model computes for the input program `p` -/
 def closeProgram (p q : Program) : Program :=
   let p₁ := mapProgramSubs (mapSubBlocks mergeDefAssignmentsToSameVar) p
-  let m := computeTables p₁
-  mapProgramSubs (mapSubBlocks fun b => closeBlock ((m.get b.tid).getD []) b) q
+  closeProgramWith (computeTables p₁) q
+
+/-! ### soundness condition of a table assignment (post-fixpoint)
+
+The result of the fixpoint iteration may depend on the order in which the nodes are visited (`update_def`
+is not monotone: a smaller table substitutes less, which changes the inserted expression). What makes a
+table assignment correct is only that it is a post-fixpoint: start blocks are empty and every table is
+contained in everything its predecessors send. -/
+
+def Table.subsetOf (a b : Table) : Bool := a.all fun p => b.get p.1 == some p.2
+
+def Table.sameEntries (a b : Table) : Bool := a.subsetOf b && b.subsetOf a
+
+def tablesClosed (p : Program) (m : TableMap) : Bool :=
+  p.subs.all fun s => (s.term.blocks.mapIdx fun i b => (i, b)).all fun (i, b) =>
+    match m.get b.tid with
+    | none => true
+    | some tb =>
+      (if i = 0 || (incomingEdges p s b).isEmpty then tb.isEmpty else true) &&
+      (s.term.blocks.all fun a => (tablesSent p m a b.tid).all fun x => tb.subsetOf x)
+
+/-- the tables agree as maps (block by block, entry by entry) -/
+def tableMapsAgree (p : Program) (m m' : TableMap) : Bool :=
+  p.subs.all fun s => s.term.blocks.all fun b =>
+    match m.get b.tid, m'.get b.tid with
+    | none, none => true
+    | some x, some y => x.sameEntries y
+    | _, _ => false
+
+/-- `propagate_input_expression` with given tables (after the merging of assignments) -/
+def propagateProgramWith (m : TableMap) (p₁ : Program) : Program :=
+  mapProgramSubs (propagateSub m) p₁
+
+def mergeAssignmentsProgram (p : Program) : Program :=
+  mapProgramSubs (mapSubBlocks mergeDefAssignmentsToSameVar) p
 
 /-! ### the composition: `Project::normalize_optimize` -/
 
